@@ -99,8 +99,8 @@ def run(tier: str, seed: int) -> int:
         cov = {'states': 0, 'transitions': 0, 'models': {}}
         pool = cf.ThreadPoolExecutor(max_workers=8)
         # 1. the design: safety (two writers) and liveness under weak fairness, in the background
-        mc_cfgs = (['AtomicWrite_mc.cfg', 'AtomicWrite_mcr.cfg', 'AtomicWrite_live.cfg', 'AtomicWrite_live1.cfg'] if quick else
-                   ['AtomicWrite_mc_big.cfg', 'AtomicWrite_mcr_big.cfg', 'AtomicWrite_mc.cfg', 'AtomicWrite_mcr.cfg',
+        mc_cfgs = (['AtomicWrite_mc.cfg', 'AtomicWrite_mcr.cfg', 'AtomicWrite_mcn.cfg', 'AtomicWrite_live.cfg', 'AtomicWrite_live1.cfg'] if quick else
+                   ['AtomicWrite_mc_big.cfg', 'AtomicWrite_mcr_big.cfg', 'AtomicWrite_mc.cfg', 'AtomicWrite_mcr.cfg', 'AtomicWrite_mcn.cfg',
                     'AtomicWrite_live_big.cfg', 'AtomicWrite_live1.cfg'])
         mc_futs = {c: pool.submit(run_tlc, 'AtomicWrite', c, workers=8, timeout=1500, heap='3g') for c in mc_cfgs}
         # 2. schedules enumerated by TLC
@@ -111,7 +111,8 @@ def run(tier: str, seed: int) -> int:
         f1r = pool.submit(_paths, 'AtomicWrite_paths1r.cfg')     # one writer, two rounds, fault / crash anywhere
         # 3. reference runs of the large scenarios; TLC derives their injection points
         ref = work.path('ref.ndjson')
-        core.run_driver('c12_driver.py', ['ref', ref], env={'VERIF_SEED': seed, 'VERIF_TIER': tier})
+        refinfo = json.loads(core.run_driver('c12_driver.py', ['ref', ref],
+                                             env={'VERIF_SEED': seed, 'VERIF_TIER': tier}).strip().splitlines()[-1])
         rp = run_tlc('AtomicWriteTrace', 'AtomicWritePlan.cfg', workers=1, env={'TRACE_FILE': str(ref)})
         core.require_mc(rp, 'AtomicWritePlan.cfg')
         refbad = [p for p in rp.prints if isinstance(p, dict) and p.get('tag') == 'REFBAD']
@@ -227,6 +228,7 @@ def run(tier: str, seed: int) -> int:
         cov['runs_by_kind'] = kinds
         cov['schedules_realised_exactly'] = {'followed': followed, 'scheduled': scheduled}
         cov['injection_points_from_reference_runs'] = npoints
+        cov['temp_naming'] = refinfo
         cov['model_steps_in_schedules'] = model_ops
         cov['impl_steps_observed'] = impl_ops
         cov['mismatches'] = len(allm)
@@ -254,6 +256,9 @@ def run(tier: str, seed: int) -> int:
                 raise MachineryError(f'coverage handshake: {got_inject} injected runs logged, TLC derived {npoints} points')
             # vacuity is judged only on a run without violations (a violation is reported as such)
             missing = {f'{a}:{b}' for a, b in EXPECTED_OPS} - set(impl_ops)
+            if not refinfo.get('naming_deterministic'):
+                # temp names that cannot be predicted cannot be put in the writer's way
+                missing.discard('open:exists')
             if missing:
                 raise MachineryError(f'vacuous replay: steps never observed in the real code: {sorted(missing)}')
             if followed * 2 < scheduled:
